@@ -215,17 +215,18 @@ type seg struct {
 }
 
 type StreamConn struct {
-	lingerZero bool // SetLinger(0) was called: Close aborts
-	n          *Net
-	ID         int
-	Role       string // "srv" / "cli"
-	rx, tx     *half
-	rdl        time.Time
-	wdl        time.Time
-	closed     bool
-	local      Addr
-	remote     Addr
-	Peer       *StreamConn
+	NoDeadlines bool // this connection is of a kind that does not support deadlines (an OS pipe, an ssh channel): the setters report that
+	lingerZero  bool // SetLinger(0) was called: Close aborts
+	n           *Net
+	ID          int
+	Role        string // "srv" / "cli"
+	rx, tx      *half
+	rdl         time.Time
+	wdl         time.Time
+	closed      bool
+	local       Addr
+	remote      Addr
+	Peer        *StreamConn
 
 	Reads      int
 	ReadTotal  int // octets handed to the reader so far
@@ -744,7 +745,7 @@ func (c *StreamConn) SetDeadline(t time.Time) error {
 	if c.closed {
 		return ErrClosed
 	}
-	if c.n.SrvNoDeadlines && c.Role == "srv" {
+	if c.NoDeadlines || (c.n.SrvNoDeadlines && c.Role == "srv") {
 		k.BumpLocked("fault.deadline_not_supported")
 		return ErrNoDeadline
 	}
@@ -764,7 +765,7 @@ func (c *StreamConn) SetReadDeadline(t time.Time) error {
 	if c.closed {
 		return ErrClosed
 	}
-	if c.n.SrvNoDeadlines && c.Role == "srv" {
+	if c.NoDeadlines || (c.n.SrvNoDeadlines && c.Role == "srv") {
 		k.BumpLocked("fault.deadline_not_supported")
 		return ErrNoDeadline
 	}
@@ -781,7 +782,7 @@ func (c *StreamConn) SetWriteDeadline(t time.Time) error {
 	if c.closed {
 		return ErrClosed
 	}
-	if c.n.SrvNoDeadlines && c.Role == "srv" {
+	if c.NoDeadlines || (c.n.SrvNoDeadlines && c.Role == "srv") {
 		k.BumpLocked("fault.deadline_not_supported")
 		return ErrNoDeadline
 	}
